@@ -11,6 +11,7 @@ results (any disagreement makes the run undecided). The model's predicted output
 never a verdict); violations are classified by the rewrite actions the model applied.
 """
 import collections
+import concurrent.futures
 import json
 import os
 
@@ -19,23 +20,25 @@ import vlib
 CFG = """SPECIFICATION Spec
 CONSTANTS
   Level = %(level)d
+  Slice = %(slice)d
   ExportFinds = %(finds)s
   GuardAltMeta = %(alt)s
   GuardBrace = %(brace)s
   GuardZeroCap = %(zero)s
   GuardEmptyAlt = %(empty)s
   GuardPrefixOrder = %(prefix)s
+  PadOctal = %(octal)s
 INVARIANTS %(inv)s
 """
-SOUND = dict(alt="TRUE", brace="TRUE", zero="TRUE", empty="TRUE", prefix="TRUE")
+SOUND = dict(alt="TRUE", brace="TRUE", zero="TRUE", empty="TRUE", prefix="TRUE", octal="TRUE")
 # the repaired tree: all context guards, but prefix factoring as the repository's own tests assert it
 CODE = dict(SOUND, prefix="FALSE")
 SUBJ = {"SOH": "\x01"}
 
 
-def cfg(level, guards, finds=False, inv="SameLanguage"):
+def cfg(level, guards, finds=False, inv="SameLanguage", slice=0):
     d = dict(guards)
-    d.update(level=level, finds="TRUE" if finds else "FALSE", inv=inv)
+    d.update(level=level, slice=slice, finds="TRUE" if finds else "FALSE", inv=inv)
     return CFG % d
 
 
@@ -45,18 +48,32 @@ def join(tokens):
 
 def run(ctx):
     thorough = ctx.tier == "thorough"
-    level = 2 if thorough else 1
     design = {}
-    r = ctx.tlc("Regex", cfg_text=cfg(level, SOUND), workers=16, timeout=3000, expect="ok", heap="12g")
-    design["terms"] = r.distinct // 2
-    for g in ("alt", "brace", "zero", "empty", "prefix"):
+    # (level, slice) instances: the quick enumeration, plus in the thorough tier every context slice of level 2
+    insts = [(1, 0)] + ([(2, k) for k in range(1, 15)] if thorough else [])
+    d = ctx._spec()
+
+    def one(inst):
+        level, sl = inst
+        tag = "l%ds%d" % (level, sl)
+        open(os.path.join(d, "sound_%s.cfg" % tag), "w").write(cfg(level, SOUND, slice=sl))
+        open(os.path.join(d, "code_%s.cfg" % tag), "w").write(cfg(level, CODE, finds=(level == 1), inv="TypeOK", slice=sl))
+        w = 16 if len(insts) == 1 else 4
+        r1 = ctx.tlc("Regex", cfg="sound_%s.cfg" % tag, workers=w, timeout=3000, expect="ok", heap="6g")
+        ctx.tlc("Regex", cfg="code_%s.cfg" % tag, workers=w, timeout=3000, dump="regex_" + tag, expect="ok", heap="6g")
+        return r1.distinct // 2
+    with concurrent.futures.ThreadPoolExecutor(max_workers=4) as pool:
+        counts = list(pool.map(one, insts))
+    design["terms"] = sum(counts)
+    design["instances"] = ["level %d slice %d: %d terms" % (l, k, c) for (l, k), c in zip(insts, counts)]
+    for g in ("alt", "brace", "zero", "empty", "prefix", "octal"):
         w = dict(SOUND)
         w[g] = "FALSE"
         r2 = ctx.tlc("Regex", cfg_text=cfg(0, w), workers=8, timeout=900, expect="violation")
         design["whatif_no_" + g] = r2.violated
-    # the code-faithful instance, exported
-    ctx.tlc("Regex", cfg_text=cfg(level, CODE, finds=not thorough, inv="TypeOK"), workers=16, timeout=3000, dump="regex", expect="ok", heap="12g")
-    states = [s for s in vlib.parse_dump(ctx.spec_path("regex.dump")) if s["ncap"] != -1]
+    states = []
+    for level, sl in insts:
+        states += [s for s in vlib.parse_dump(ctx.spec_path("regex_l%ds%d.dump" % (level, sl))) if s["ncap"] != -1]
     cases = []
     for i, s in enumerate(states):
         c = {"id": i, "pat": join(s["pat"]), "alpha": sorted(SUBJ.get(a, a) for a in s["alpha"])}
@@ -116,7 +133,7 @@ def run(ctx):
                       "model_actions": sorted(s["acts"]), "model_output": predicted})
         elif same_out and not s["same"]:
             raise vlib.Infra("Regex.tla refutes the rewrite `%s` => `%s` but Go's regexp finds no difference" % (c["pat"], real))
-    if validated == 0 and not thorough:
+    if validated == 0:
         raise vlib.Infra("no Find results were validated against regexp")
     rewritten = sum(1 for r in res if r.get("sugg"))
     if rewritten < len(res) // 10:
